@@ -45,6 +45,10 @@ def run(ctx):
   rule_pure(ctx, bodies)
   rule_const(ctx)
   rule_registry(ctx, m, base, classes)
+  # a local read on a path that has not bound it raises UnboundLocalError instead of producing the result (analysis shared with C18)
+  from . import c18 as _c18
+  n_def = _c18.rule_defined(ctx, "R-C20-DEFINED", "C20")
+  ctx.expect("R-C20-DEFINED", 22, "functions of rng")
   ctx.expect("R-C20-WIDTH", 13, "13 concrete RandomBits bodies")
   ctx.expect("R-C20-PURE", 13, "13 concrete RandomBits bodies")
   ctx.expect("R-C20-REGISTRY", 2, "registry + lookup")
